@@ -186,45 +186,95 @@ def to_nonneg(r):
     return tuple(to_nonneg(x) if isinstance(x, tuple) else x for x in r)
 
 
-CNF_UNARY = ["neg", "abs"]
+# ops the shared generator's table lacks (fv/gen_terms.py is read-only; this extends the dict in this process)
+for _n, _o in (("exp", ops.exp), ("log", ops.log), ("reciprocal", ops.reciprocal)):
+    gen_terms.OPS.setdefault(_n, _o)
+
 CNF_RED = ["max", "min", "add", "mul"]
 CNF_BIN = ["add", "mul", "sub", "max", "min"]
-CNF_WRAP = ["none", "sub-from", "add-to", "outer-reduce", "double"]
-CNF_GRID = [(w_, u, r, b) for w_ in CNF_WRAP for u in CNF_UNARY for r in CNF_RED for b in CNF_BIN]
+# exact part, walked first: every (unary, red_op, bin_op) once in 40 consecutive cases
+CNF_CORE = [("none", u, r, b) for u in ("neg", "abs") for r in CNF_RED for b in CNF_BIN]
+# inexact part (float rounding: compared after rounding to 8 significant digits, reference = eager build)
+CNF_APPROX = ([("none", u, r, b) for u in ("reciprocal", "exp", "log") for r in ("max", "min", "add") for b in ("add", "mul")]
+              + [("none", u, "logaddexp", b) for u in ("neg", "abs") for b in ("add", "max")]
+              + [("none", "reciprocal", r, "mul") for r in ("mul", "max", "min")])
+CNF_WRAPPED = [(w_, u, r, b) for w_ in ("sub-from", "add-to", "outer-reduce", "double", "subs", "rename", "three-terms",
+                                         "div-by")
+               for u in ("neg", "abs", "reciprocal") for r in CNF_RED for b in ("add", "mul", "max")]
+INEXACT = {"exp", "log", "reciprocal", "logaddexp", "truediv"}
+DOUBLE_OF = {"neg": "neg", "abs": "neg", "reciprocal": "reciprocal", "exp": "log", "log": "exp"}
 
 
-def gen_cnf_grid(rng, k):
-    """Normal-form shapes: a unary op applied to a reduction of a binary op, optionally wrapped — the
-    shapes on which funsor/cnf.py's normalize rules (unary_contract, fusion, distribution) fire.  The
-    grid unary x red_op x bin_op (wrapper `none` first) is walked in order, so that 40 consecutive cases
-    cover every (unary, red_op, bin_op) once."""
-    wrap, u, r, b = CNF_GRID[k % len(CNF_GRID)]
+def recipe_ops(recipe):
+    out = set()
+
+    def go(r):
+        if isinstance(r, tuple):
+            if r and r[0] in ("binary", "unary", "reduce") and isinstance(r[1], str):
+                out.add(r[1])
+            for x in r:
+                go(x)
+    go(recipe)
+    return out
+
+
+def gen_cnf_grid(rng, k, rot):
+    """Normal-form shapes: a unary op applied to a reduction of a binary op (or of a three-term product),
+    bare or wrapped in sub / add / an outer reduction / a second unary / a substitution / a division — the
+    shapes on which the normalize rules of funsor/cnf.py fire (unary_contract, unary_log_exp, binary_subtract,
+    binary_divide, fusion, distribution, distribute_subs_contraction)."""
+    if k < len(CNF_CORE):
+        wrap, u, r, b = CNF_CORE[k]
+    elif k < len(CNF_CORE) + len(CNF_APPROX):
+        wrap, u, r, b = CNF_APPROX[k - len(CNF_CORE)]
+    else:
+        wrap, u, r, b = CNF_WRAPPED[(k + rot) % len(CNF_WRAPPED)]
     ctx = gen_ctx(rng)
     names = list(ctx)
     i = rng.choice(names)
     na = sorted(set([i] + [n for n in names if rng.random() < 0.5]))
     nb = sorted(set([i] + [n for n in names if rng.random() < 0.5]))
-    A = gen_terms.gen_tensor(rng, ctx, "real", names=na)
-    B = gen_terms.gen_tensor(rng, ctx, "real", names=nb)
-    core = ("unary", u, ("reduce", r, ("binary", b, A, B), (i,), ()))
-    X = gen_terms.gen_tensor(rng, ctx, "real")
+    inexact = bool({u, r, b} & INEXACT) or wrap == "div-by"
+
+    def tensor(ns):
+        tt = gen_terms.gen_tensor(rng, ctx, "real", names=ns)
+        if inexact:        # positive data: log / reciprocal defined, powers of two keep products exact
+            vals = np.array([rng.choice([1.0, 2.0, 4.0, 0.5]) for _ in range(tt[4].size)]).reshape(tt[4].shape)
+            tt = tt[:4] + (vals,)
+        return tt
+    A, B = tensor(na), tensor(nb)
+    body = ("binary", b, A, B)
+    if wrap == "three-terms":
+        body = ("binary", b, body, tensor(sorted(set([i] + [n for n in names if rng.random() < 0.5]))))
+    red = ("reduce", r, body, (i,), ())
+    core = ("unary", u, red)
+    X = tensor([n for n in names if rng.random() < 0.5])
+    rest = sorted((set(na) | set(nb)) - {i})
     if wrap == "sub-from":
-        recipe = ("binary", "sub", X, core[2])          # X - red(...)  (normalize: X + (-(red …)))
+        recipe = ("binary", "sub", X, red)              # X - red(...)  (normalize: X + (-(red …)))
+    elif wrap == "div-by":
+        recipe = ("binary", "truediv", X, red)          # X / red(...)  (normalize: X * reciprocal(red …))
     elif wrap == "add-to":
         recipe = ("binary", "add", core, X)
-    elif wrap == "outer-reduce":
-        rest = sorted((set(na) | set(nb)) - {i})
-        recipe = ("reduce", rng.choice(CNF_RED), core, (rest[0],), ()) if rest else core
+    elif wrap == "outer-reduce" and rest:
+        recipe = ("reduce", rng.choice(CNF_RED), core, (rest[0],), ())
     elif wrap == "double":
-        recipe = ("unary", u, core)
+        recipe = ("unary", DOUBLE_OF[u], core)
+    elif wrap == "subs" and rest:
+        recipe = ("subs", core, ((rest[0], ("num", rng.randrange(ctx[rest[0]]), ctx[rest[0]])),))
+    elif wrap == "rename" and rest:
+        cands = [n for n in names if n != rest[0] and ctx[n] == ctx[rest[0]]]
+        recipe = ("subs", core, ((rest[0], ("var", rng.choice(cands), ctx[rest[0]])),)) if cands else core
     else:
         recipe = core
     return ctx, recipe
 
 
 def cases(base_seed, n):
-    """The seeded case list: [(ctx, recipe, family, env)]; env binds the free real inputs."""
+    """The seeded case list: [(ctx, recipe, family, env)]; env binds the free real inputs; the pseudo-binding
+    "__approx__" marks expressions with inexact ops (compared after rounding)."""
     rng = random.Random(f"C03-cases-{base_seed}")
+    rot = rng.randrange(10 ** 6)
     out = []
     grid0 = 0
     for idx in range(n):
@@ -234,10 +284,13 @@ def cases(base_seed, n):
         elif idx % 5 == 2:
             ctx, recipe, env = gen_seq_lazy(rng)
             out.append((ctx, recipe, "seq-lazy", env))
-        elif idx % 5 == 3:
-            ctx, recipe = gen_cnf_grid(rng, grid0)
+        elif idx % 5 in (1, 3):
+            ctx, recipe = gen_cnf_grid(rng, grid0, rot)
             grid0 += 1
-            if carrier_risky(recipe):
+            used = recipe_ops(recipe)
+            if used & INEXACT:
+                out.append((ctx, recipe, "cnf-grid:inexact(rounded, reference eager)", {"__approx__": 1.0}))
+            elif carrier_risky(recipe):
                 out.append((ctx, to_nonneg(recipe), "cnf-grid:nonneg(max-mul carrier)", {}))
             else:
                 out.append((ctx, recipe, "cnf-grid", {}))
@@ -388,7 +441,13 @@ def recipe_wire(r):
 # Canonical observables
 # ---------------------------------------------------------------------------------------------
 
+APPROX = [False]
+
+
 def fmt(x):
+    if APPROX[0]:
+        v = float(x)
+        return "nan" if v != v else ("inf" if v == float("inf") else "-inf" if v == float("-inf") else "%.8g" % (v + 0.0))
     if isinstance(x, float):
         return "nan" if x != x else ("inf" if x > 0 else "-inf")
     return str(x.numerator) if x.denominator == 1 else f"{x.numerator}/{x.denominator}"
@@ -404,6 +463,7 @@ def ground(f, ins):
 def canonical(f, ins, env=None):
     """-> ("value", table) | ("lazy", typename) | ("bad-inputs", msg)"""
     names = dict(ins)
+    APPROX[0] = bool(env and env.get("__approx__"))
     if env:
         bind = {k: Number(v) for k, v in env.items() if k in f.inputs and f.inputs[k] == Real}
         if bind:
